@@ -107,6 +107,71 @@ def _returns_outside_guards(body):
     return scan(body, True)
 
 
+def _loop_returns_to_breaks(body, tmp):
+    """A helper that returns from inside its (single, top-level) loop - the "search loop" shape
+
+        for x in xs:                      for x in xs:
+            ...                               ...
+            if found: return V       ->       if found: tmp = V; break
+        return W                          else:
+                                              tmp = W
+                                          return tmp
+
+    so that the structured return rewriting applies.  Returns the new statement list, or None when the body is not of that
+    shape (returns in nested loops, a loop that already has an else clause or breaks of its own, returns before the loop, more
+    than the one final return after it)."""
+    idx = [i for i, st in enumerate(body) if isinstance(st, (ast.For, ast.While)) and any(isinstance(x, ast.Return) for x in ast.walk(st))]
+    if len(idx) != 1:
+        return None
+    i = idx[0]
+    loop, pre, tail = body[i], body[:i], body[i + 1:]
+    if loop.orelse or any(isinstance(x, ast.Return) for st in pre for x in ast.walk(st)):
+        return None
+    trets = [x for st in tail for x in ast.walk(st) if isinstance(x, ast.Return)]
+    if trets and not (len(trets) == 1 and tail[-1] is trets[0]):
+        return None
+    ok = [True]
+    nret = [0]
+
+    def assign(v, at):
+        val = v if v is not None else ast.Constant(value=None)
+        return ast.copy_location(ast.Assign(targets=[ast.Name(id=tmp, ctx=ast.Store())], value=val), at)
+
+    def block(stmts):
+        out = []
+        for st in stmts:
+            if isinstance(st, ast.Return):
+                nret[0] += 1
+                out.append(assign(st.value, st))
+                out.append(ast.copy_location(ast.Break(), st))
+                continue
+            if isinstance(st, ast.Break):
+                ok[0] = False
+            if isinstance(st, (ast.For, ast.While, ast.AsyncFor, ast.FunctionDef, ast.AsyncFunctionDef, ast.ClassDef)):
+                if any(isinstance(x, ast.Return) for x in ast.walk(st)) and not isinstance(st, (ast.FunctionDef, ast.AsyncFunctionDef, ast.ClassDef)):
+                    ok[0] = False       # a return inside a nested loop: break would leave the wrong loop
+                out.append(st)
+                continue
+            for fld in ('body', 'orelse', 'finalbody'):
+                seq = getattr(st, fld, None)
+                if isinstance(seq, list) and seq and isinstance(seq[0], ast.stmt):
+                    setattr(st, fld, block(seq))
+            if isinstance(st, ast.Try):
+                for h in st.handlers:
+                    h.body = block(h.body)
+            out.append(st)
+        return out
+    loop.body = block(loop.body)
+    if not ok[0] or not nret[0]:
+        return None
+    if trets:
+        loop.orelse = list(tail[:-1]) + [assign(trets[0].value, trets[0])]
+    else:
+        loop.orelse = list(tail) + [assign(None, loop)]
+    final = ast.copy_location(ast.Return(value=ast.Name(id=tmp, ctx=ast.Load())), loop)
+    return list(pre) + [loop, final]
+
+
 def _ends_with_return(stmts):
     if not stmts:
         return False
@@ -368,7 +433,16 @@ class Inliner(object):
         if _returns_outside_guards(body):
             if isinstance(st, ast.Return) and st.value is call:
                 return prelude + body           # `return helper(...)`: the helper's returns are the caller's returns
-            return None
+            # a search loop that returns from inside: break with the value in a temporary (see _loop_returns_to_breaks)
+            # (off unless VERIF_LOOP_INLINE is set: the rules read a helper that searches with a loop better as a call than as
+            # a loop-with-temporary spliced into the caller - see DESIGN.md section 24, C03-rf4p1)
+            import os
+            if not os.environ.get('VERIF_LOOP_INLINE'):
+                return None
+            alt = _loop_returns_to_breaks(copy.deepcopy(body), '_ret_%s_%d' % (hnode.name.strip('_'), getattr(call, 'lineno', 0)))
+            if alt is None or _returns_outside_guards(alt):
+                return None
+            body = alt
         if isinstance(st, ast.Expr) and st.value is call:
             def make(v):
                 return [ast.copy_location(ast.Expr(value=v), v)] if isinstance(v, ast.Call) else []
